@@ -25,7 +25,7 @@ GROUPSETS = {
 WIDE = [0, 1, 256, 512]
 META = {
     "bounds": {"quick": "label maps 1-D 2-3 voxels per array with labels 0..4 (-1..4 for signed semantic input); four group definitions (plain / merge / single-instance / list form); input types semantic (int64, uint8), unmatched, matched",
-               "thorough": "1-D 4 voxels (3 for signed input)"},
+               "thorough": "1-D 4 voxels (3 for signed input and for the wide-label group set)"},
     "stubs": ["panoptic_evaluate := uninterpreted (arguments recorded)"],
     "assumptions": ["'equals evaluating the restricted arrays without groups' is reduced to 'panoptic_evaluate receives exactly the restricted arrays, pair class and threshold'; evaluation being a function of these is C15/C01",
                     "group definitions are the four listed partitions; arrays larger than the bound are outside the claim"],
@@ -43,7 +43,7 @@ def cases(tier):
                 # 3 voxels per array for the richest group set, 2 for the others
                 n = 3 if (gs == "mixed" and it == "UNMATCHED_INSTANCE") else 2
             else:
-                n = 3 if dt == "int64" else 4
+                n = 3 if (dt == "int64" or gs == "wide_labels") else 4      # (wide labels with 4 voxels: 4^8 value classes, beyond the time budget)
             out.append({"name": "%s_%s_%s" % (gs, it, dt), "groupset": gs, "input_type": it, "dtype": dt, "n": n})
     return out
 
